@@ -18,7 +18,8 @@ func (x *counters) Add(addr oid.Address, size uint64) {
 	x.mu.Lock()
 	defer x.mu.Unlock()
 
-	x.size += size
+	// the address may be known already (repeated put of the same object)
+	x.size += size - x.objMap[addr]
 	x.objMap[addr] = size
 }
 
